@@ -48,44 +48,197 @@ Proof.
   eapply nth_error_Some_lt'; eauto.
 Qed.
 
-Lemma sim_complete fuel : forall kind tick s,
-  Inv s -> at_ s <> PPanic -> measure s < fuel ->
-  exists s' ls, sim fuel kind tick s = Some s' /\ run s ls = Some s' /\ final s' = true.
+(* what a scheduler returns is the end of a run *)
+Lemma sim_sound fuel : forall kind tick s s',
+  sim fuel kind tick s = Some s' -> exists ls, run s ls = Some s' /\ final s' = true.
 Proof.
-  induction fuel as [|fuel IH]; intros kind tick s HI Hp Hm; [lia|].
+  induction fuel as [|fuel IH]; intros kind tick s s' H; [discriminate|].
+  cbn [sim] in H. destruct (final s) eqn:Hf.
+  - apply Some_inj in H. subst. exists []. auto.
+  - destruct (first_enabled s (order kind tick s)) as [s1|] eqn:Ef; [|discriminate].
+    destruct (first_enabled_some _ _ _ Ef) as [l1 [_ Hs1]].
+    destruct (IH _ _ _ _ H) as [ls [H1 H2]].
+    exists (l1 :: ls). split; [|assumption]. cbn [run]. rewrite Hs1. assumption.
+Qed.
+
+Lemma model_result_sound p kind x :
+  model_result p kind = Some x -> x = (r_trace (ref_run p), r_status (ref_run p)).
+Proof.
+  unfold model_result. destruct (sim (S (run_bound p)) kind 0 (init p)) as [s'|] eqn:E; [|discriminate].
+  intros H. apply Some_inj in H. subst x.
+  destruct (sim_sound _ _ _ _ _ E) as [ls [H1 H2]].
+  destruct (schedule_independent_lemma p ls s' H1 H2) as [A [B _]]. rewrite A, B. reflexivity.
+Qed.
+
+(* ------------------------------------------------------------------------ *)
+(* scripts without SIGSTOP *)
+Definition child_quiet (c : child) : bool :=
+  match cs c with Running p => script_quiet p | Stopped _ => false | _ => true end.
+
+Definition pc_quiet (a : pc) : bool :=
+  match a with PFork todo _ _ => forallb (fun x => script_quiet (fst x)) todo | _ => true end.
+
+Definition state_quiet (s : state) : Prop :=
+  forallb child_quiet (kids (kn s)) = true /\ prog_quiet (prog s) = true /\ pc_quiet (at_ s) = true.
+
+Lemma forallb_upd {A} (f : A -> bool) (l : list A) : forall i x,
+  forallb f l = true -> f x = true -> forallb f (upd l i x) = true.
+Proof.
+  induction l as [|y t IH]; intros [|i] x Hl Hx; cbn in *; auto;
+    apply andb_true_iff in Hl; destruct Hl as [H1 H2]; apply andb_true_iff; auto.
+Qed.
+
+Lemma forallb_nth {A} (f : A -> bool) (l : list A) i c :
+  forallb f l = true -> nth_error l i = Some c -> f c = true.
+Proof. intros H Hn. rewrite forallb_forall in H. apply H. eapply nth_error_In; eauto. Qed.
+
+Lemma quiet_signal k sg t :
+  forallb child_quiet (kids k) = true -> sg = SCont ->
+  forallb child_quiet (kids (k_signal k sg t)) = true.
+Proof.
+  intros Hq ->. unfold k_signal. destruct (nth_error (kids k) t) as [c|] eqn:Hn; [|assumption].
+  destruct (cs c) eqn:Hc; try assumption.
+  pose proof (forallb_nth _ _ _ _ Hq Hn) as H. unfold child_quiet in H. rewrite Hc in H. discriminate.
+Qed.
+
+Lemma quiet_child_step k i k' :
+  forallb child_quiet (kids k) = true -> child_step k i = Some k' ->
+  forallb child_quiet (kids k') = true.
+Proof.
+  intros Hq. unfold child_step. destruct (nth_error (kids k) i) as [c|] eqn:Hn; [|discriminate].
+  pose proof (forallb_nth _ _ _ _ Hq Hn) as Hc0. unfold child_quiet in Hc0.
+  destruct (cs c) as [[|[|sg t] r]| | |] eqn:Hc; try discriminate; intros H; apply Some_inj in H; subst k'.
+  - rewrite kids_raise. unfold set_kids; cbn [kids]. apply forallb_upd; auto.
+  - unfold set_kids; cbn [kids]. apply forallb_upd; auto;
+      unfold child_quiet; cbn [cs]; cbn [script_quiet forallb] in Hc0; apply andb_true_iff in Hc0; tauto.
+  - cbn [script_quiet forallb] in Hc0. apply andb_true_iff in Hc0. destruct Hc0 as [Ha Hr].
+    apply quiet_signal.
+    + unfold set_kids; cbn [kids]. apply forallb_upd; auto.
+    + destruct sg; [discriminate | reflexivity].
+Qed.
+
+Lemma quiet_kwait k t r k' :
+  forallb child_quiet (kids k) = true -> kwait k t = (r, k') ->
+  forallb child_quiet (kids k') = true.
+Proof.
+  intros Hq Hw.
+  destruct r as [i x|i|i| |].
+  - destruct (kwait_some _ _ _ _ _ Hw) as [c [Hn [_ [_ [-> _]]]]].
+    unfold set_kids; cbn [kids]. apply forallb_upd; auto.
+  - destruct (kwait_seen _ _ _ _ i Hw (or_introl eq_refl)) as [c [Hn [_ [_ [-> _]]]]].
+    unfold set_kids; cbn [kids]. apply forallb_upd; auto.
+    exact (forallb_nth _ _ _ _ Hq Hn).
+  - destruct (kwait_seen _ _ _ _ i Hw (or_intror eq_refl)) as [c [Hn [_ [_ [-> _]]]]].
+    unfold set_kids; cbn [kids]. apply forallb_upd; auto.
+    exact (forallb_nth _ _ _ _ Hq Hn).
+  - destruct (kwait_none _ _ _ Hw) as [-> _]. assumption.
+  - destruct (kwait_echild _ _ _ Hw) as [-> _]. assumption.
+Qed.
+
+Lemma quiet_fork k p st :
+  forallb child_quiet (kids k) = true -> script_quiet p = true ->
+  forallb child_quiet (kids (fst (k_fork k p st))) = true.
+Proof.
+  intros Hq Hp. cbn [k_fork fst set_kids kids]. rewrite forallb_app, Hq. cbn. rewrite Hp. reflexivity.
+Qed.
+
+Lemma kids_unblock k : kids (k_unblock k) = kids k.
+Proof. unfold k_unblock, deliver. destruct (pending k); [destruct (catching k)|]; reflexivity. Qed.
+
+Lemma quiet_parent_step s s' :
+  state_quiet s -> parent_step s = Some s' -> state_quiet s'.
+Proof.
+  intros [Hk [Hp Ha]] Hs. destruct s as [k pr a st lb jb tr]. cbn [kn prog at_] in *.
+  unfold parent_step in Hs; cbn [kn prog at_ status lastbg jobs trace] in Hs.
+  unfold set_at, finish in Hs; cbn [kn prog at_ status lastbg jobs trace] in Hs.
+  unfold state_quiet.
+  destruct a as [|todo pids pf|m t c|t0| | |].
+  - destruct pr as [|[w x|l pf|t|] r]; apply Some_inj in Hs; subst s'; cbn [kn prog at_];
+      cbn [prog_quiet forallb cmd_quiet] in Hp; try (apply andb_true_iff in Hp; destruct Hp as [Hp1 Hp2]);
+      repeat split; auto.
+    apply (quiet_fork k w x); assumption.
+  - destruct todo as [|[w x] todo].
+    + destruct pids; apply Some_inj in Hs; subst s'; cbn [kn prog at_]; repeat split; auto.
+    + apply Some_inj in Hs; subst s'; cbn [kn prog at_].
+      cbn [pc_quiet forallb fst] in Ha. apply andb_true_iff in Ha. destruct Ha as [Ha1 Ha2].
+      repeat split; auto. apply (quiet_fork k w x); assumption.
+  - destruct m.
+    + destruct (negb (blocked k)); [|destruct (negb (catching k))]; apply Some_inj in Hs; subst s';
+        cbn [kn prog at_ k_block k_catch kids]; repeat split; auto.
+    + destruct (kwait k t) as [[i x|i|i| |] k'] eqn:Ew; pose proof (quiet_kwait _ _ _ _ Hk Ew) as Hk'.
+      * destruct c as [[|p more] fin pf ra|t0]; apply Some_inj in Hs; subst s'; cbn [kn prog at_];
+          repeat split; auto. destruct ra; reflexivity.
+      * destruct c; apply Some_inj in Hs; subst s'; cbn [kn prog at_]; repeat split; auto.
+      * destruct c; apply Some_inj in Hs; subst s'; cbn [kn prog at_]; repeat split; auto.
+      * apply Some_inj in Hs; subst s'; cbn [kn prog at_]; repeat split; auto.
+      * destruct c; apply Some_inj in Hs; subst s'; cbn [kn prog at_]; repeat split; auto.
+    + destruct (0 <? caught (k_unblock k)); apply Some_inj in Hs; subst s';
+        cbn [kn prog at_ k_take_caught k_block kids]; rewrite kids_unblock; repeat split; auto.
+    + destruct (0 <? caught k); [|discriminate]. apply Some_inj in Hs; subst s';
+        cbn [kn prog at_ k_take_caught k_block kids]; repeat split; auto.
+  - destruct t0 as [i|]; [destruct (job_find jb i) as [[x|]|] | destruct (job_unfinished jb)];
+      apply Some_inj in Hs; subst s'; cbn [kn prog at_]; repeat split; auto.
+  - destruct (kwait k TAny) as [[i x|i|i| |] k'] eqn:Ew; pose proof (quiet_kwait _ _ _ _ Hk Ew) as Hk';
+      apply Some_inj in Hs; subst s'; cbn [kn prog at_]; repeat split; auto.
+  - discriminate.
+  - discriminate.
+Qed.
+
+Lemma quiet_step s l s' : state_quiet s -> step s l = Some s' -> state_quiet s'.
+Proof.
+  intros Hq Hs. destruct l as [|i]; cbn [step] in Hs.
+  - eapply quiet_parent_step; eauto.
+  - destruct (child_step (kn s) i) as [k'|] eqn:E; [|discriminate].
+    apply Some_inj in Hs. subst s'. destruct Hq as [Hk [Hp Ha]].
+    unfold state_quiet, set_at; cbn [kn prog at_]. repeat split; auto.
+    eapply quiet_child_step; eauto.
+Qed.
+
+Lemma quiet_no_stopped s : state_quiet s -> ~ some_stopped (kn s).
+Proof.
+  intros [Hk _] [i [c [p [Hn Hc]]]].
+  pose proof (forallb_nth _ _ _ _ Hk Hn) as H. unfold child_quiet in H. rewrite Hc in H. discriminate.
+Qed.
+
+Lemma sim_complete fuel : forall kind tick s,
+  Inv s -> state_quiet s -> at_ s <> PPanic -> measure s < fuel ->
+  exists s', sim fuel kind tick s = Some s'.
+Proof.
+  induction fuel as [|fuel IH]; intros kind tick s HI Hq Hp Hm; [lia|].
   cbn [sim]. destruct (final s) eqn:Hf.
-  - exists s, []. auto.
+  - eauto.
   - assert (He : at_ s <> PExit) by (unfold final in Hf; destruct (at_ s); congruence).
-    destruct (progress_inv s HI He Hp) as [l Hl].
+    destruct (progress_inv s HI He Hp) as [[l Hl]|Hst]; [|exfalso; exact (quiet_no_stopped s Hq Hst)].
     destruct (first_enabled s (order kind tick s)) as [s1|] eqn:Ef.
     + destruct (first_enabled_some _ _ _ Ef) as [l1 [_ Hs1]].
       pose proof (step_inv _ _ _ HI Hs1) as HI1.
       pose proof (step_measure _ _ _ Hs1) as Hm1.
+      pose proof (quiet_step _ _ _ Hq Hs1) as Hq1.
       assert (Hp1 : at_ s1 <> PPanic).
       { destruct l1 as [|i]; cbn [step] in Hs1.
         - exact (parent_step_no_panic s s1 HI Hs1).
         - destruct (child_step (kn s) i); [|discriminate]. apply Some_inj in Hs1. subst s1. exact Hp. }
-      destruct (IH kind (S tick) s1 HI1 Hp1 ltac:(lia)) as [s' [ls [H1 [H2 H3]]]].
-      exists s', (l1 :: ls). split; [assumption|]. split; [|assumption].
-      cbn [run]. rewrite Hs1. assumption.
+      apply IH; auto. lia.
     + exfalso. apply Hl. eapply first_enabled_none; [exact Ef|].
       apply in_order. apply enabled_in_all_labels. assumption.
 Qed.
 
 Lemma model_result_is_reference p kind :
+  prog_quiet p = true ->
   model_result p kind = Some (r_trace (ref_run p), r_status (ref_run p)).
 Proof.
-  unfold model_result.
-  destruct (sim_complete (S (run_bound p)) kind 0 (init p) (inv_init p)) as [s' [ls [H1 [H2 H3]]]].
+  intros Hq.
+  destruct (sim_complete (S (run_bound p)) kind 0 (init p) (inv_init p)) as [s' H1].
+  - unfold state_quiet, init; cbn. auto.
   - cbn. discriminate.
   - rewrite measure_init. lia.
-  - rewrite H1. destruct (schedule_independent_lemma p ls s' H2 H3) as [A [B _]].
-    rewrite A, B. reflexivity.
+  - destruct (model_result p kind) as [x|] eqn:E.
+    + rewrite (model_result_sound p kind x E). reflexivity.
+    + unfold model_result in E. rewrite H1 in E. discriminate.
 Qed.
 
 (* soundness of the script oracle: whenever the implementation's observation
-   is the model's, the oracle accepts it (up to the leftover check, which is
-   the no_zombie theorem) *)
+   is the reference, the check accepts it *)
 Lemma script_oracle_sound p o :
   so_panic o = false -> so_stuck o = false ->
   so_trace o = r_trace (ref_run p) -> so_status o = Z.of_N (r_status (ref_run p)) ->
@@ -99,5 +252,14 @@ Proof.
     rewrite (option_eqb_spec Nat.eqb Nat.eqb_eq). split; [intros [-> ->]; reflexivity|].
     intros H; inversion H; auto. }
   rewrite Ht, Tr, Hst, Z.eqb_refl, Hl. cbn [negb].
-  rewrite !model_result_is_reference. rewrite Tr, Z.eqb_refl. reflexivity.
+  assert (Hag : forall kind,
+            match model_result p kind with
+            | Some (t, st) => trace_eqb t (r_trace (ref_run p)) && Z.eqb (Z.of_N st) (Z.of_N (r_status (ref_run p)))
+            | None => negb (prog_quiet p)
+            end = true).
+  { intros kind. destruct (model_result p kind) as [[t st]|] eqn:E.
+    - pose proof (model_result_sound p kind _ E) as H. inversion H; subst. rewrite Tr, Z.eqb_refl. reflexivity.
+    - destruct (prog_quiet p) eqn:Eq; [|reflexivity].
+      rewrite (model_result_is_reference p kind Eq) in E. discriminate. }
+  rewrite !Hag. reflexivity.
 Qed.
